@@ -167,3 +167,91 @@ theorem parseOptions_ser (order : TlvMap) (hn : tagsNodup order = true)
   simpa [parseOptions] using this
 
 end SmsVerif
+
+namespace SmsVerif
+
+/-- the map a parser builds from a triplet sequence: later triplets with the same tag win -/
+def upsertAll (m : TlvMap) (seq : TlvMap) : TlvMap := seq.foldl (fun m tv => m.upsert tv.1 tv.2) m
+
+/-- the reader-based parser on any well-formed triplet sequence (duplicates allowed, any order) -/
+theorem readTlvLoop_seq (seq : TlvMap) (m : TlvMap) (a fuel : Nat)
+    (hfuel : (tlvsBytes seq).length < fuel)
+    (hb : ∀ tv ∈ seq, tv.1 < 65536 ∧ tv.2.length < 65536) :
+    ∃ a', (readTlvLoop fuel ⟨tlvsBytes seq, none, a⟩ m).map = some (upsertAll m seq) ∧
+          (readTlvLoop fuel ⟨tlvsBytes seq, none, a⟩ m).rd = ⟨[], none, a'⟩ := by
+  induction seq generalizing m a fuel with
+  | nil =>
+    cases fuel with
+    | zero => simp at hfuel
+    | succ fuel => exact ⟨a, by simp [readTlvLoop, tlvsBytes, Reader.remaining, upsertAll]⟩
+  | cons tv rest ih =>
+    obtain ⟨t, v⟩ := tv
+    obtain ⟨ht, hv⟩ := hb (t, v) (by simp)
+    cases fuel with
+    | zero => simp at hfuel
+    | succ fuel =>
+      have hser : tlvsBytes ((t, v) :: rest) = (be 2 t ++ be 2 v.length) ++ (v ++ tlvsBytes rest) := by
+        simp [tlvsBytes, tlvBytes_small t v hv, List.append_assoc]
+      have hrem : ¬ (Reader.remaining ⟨tlvsBytes ((t, v) :: rest), none, a⟩ = 0) := by
+        simp [Reader.remaining, hser]
+      have hhd : Reader.readBytes ⟨(be 2 t ++ be 2 v.length) ++ (v ++ tlvsBytes rest), none, a⟩ 4
+          = (be 2 t ++ be 2 v.length, ⟨v ++ tlvsBytes rest, none, a⟩) := by
+        have := readBytes_append (be 2 t ++ be 2 v.length) (v ++ tlvsBytes rest) a
+        simpa using this
+      have htag : fromBe ((be 2 t ++ be 2 v.length).take 2) = t := by
+        rw [List.take_left' (by simp)]; exact fromBe_be_of_lt (by simpa using ht)
+      have hlen : fromBe ((be 2 t ++ be 2 v.length).drop 2) = v.length := by
+        rw [List.drop_left' (by simp)]; exact fromBe_be_of_lt (by simpa using hv)
+      have hval : Reader.readBytes ⟨v ++ tlvsBytes rest, none, a + v.length⟩ v.length
+          = (v, ⟨tlvsBytes rest, none, a + v.length⟩) := readBytes_append v (tlvsBytes rest) _
+      have hfuel' : (tlvsBytes rest).length < fuel := by
+        have := congrArg List.length hser
+        simp at this; omega
+      obtain ⟨a', h1, h2⟩ := ih (m.upsert t v) (a + v.length) fuel hfuel' (fun tv htv => hb tv (by simp [htv]))
+      refine ⟨a', ?_, ?_⟩ <;>
+      · rw [readTlvLoop]
+        simp only [hrem, if_false]
+        rw [hser, hhd]
+        simp only [htag, hlen, hval]
+        first | (simpa [upsertAll] using h1) | exact h2
+
+theorem parseOptionsLoop_seq (seq : TlvMap) (m : TlvMap) (fuel : Nat)
+    (hfuel : (tlvsBytes seq).length < fuel)
+    (hb : ∀ tv ∈ seq, tv.1 < 65536 ∧ tv.2.length < 65536) :
+    parseOptionsLoop fuel (tlvsBytes seq) m = some (upsertAll m seq) := by
+  induction seq generalizing m fuel with
+  | nil =>
+    cases fuel with
+    | zero => simp at hfuel
+    | succ fuel => simp [parseOptionsLoop, tlvsBytes, upsertAll]
+  | cons tv rest ih =>
+    obtain ⟨t, v⟩ := tv
+    obtain ⟨ht, hv⟩ := hb (t, v) (by simp)
+    cases fuel with
+    | zero => simp at hfuel
+    | succ fuel =>
+      have hser : tlvsBytes ((t, v) :: rest) = be 2 t ++ (be 2 v.length ++ (v ++ tlvsBytes rest)) := by
+        simp [tlvsBytes, tlvBytes_small t v hv, List.append_assoc]
+      have hfuel' : (tlvsBytes rest).length < fuel := by
+        have := congrArg List.length hser
+        simp at this; omega
+      have hih := ih (m.upsert t v) fuel hfuel' (fun tv htv => hb tv (by simp [htv]))
+      rw [parseOptionsLoop, hser]
+      have e1 : (be 2 t ++ (be 2 v.length ++ (v ++ tlvsBytes rest))).isEmpty = false := by simp [be]
+      have e2 : ¬ (be 2 t ++ (be 2 v.length ++ (v ++ tlvsBytes rest))).length < 4 := by simp; omega
+      have e3 : (be 2 t ++ (be 2 v.length ++ (v ++ tlvsBytes rest))).take 2 = be 2 t :=
+        List.take_left' (by simp)
+      have e4 : (be 2 t ++ (be 2 v.length ++ (v ++ tlvsBytes rest))).drop 2
+          = be 2 v.length ++ (v ++ tlvsBytes rest) := List.drop_left' (by simp)
+      have e5 : (be 2 t ++ (be 2 v.length ++ (v ++ tlvsBytes rest))).drop 4 = v ++ tlvsBytes rest := by
+        have : be 2 t ++ (be 2 v.length ++ (v ++ tlvsBytes rest))
+            = (be 2 t ++ be 2 v.length) ++ (v ++ tlvsBytes rest) := by simp [List.append_assoc]
+        rw [this]; exact List.drop_left' (by simp)
+      simp only [e1, Bool.false_eq_true, if_false, e2, e3, e4, e5, List.take_left' (be_length 2 _),
+        fromBe_be_of_lt (show t < 256 ^ 2 by simpa using ht),
+        fromBe_be_of_lt (show v.length < 256 ^ 2 by simpa using hv)]
+      have e6 : ¬ (v ++ tlvsBytes rest).length < v.length := by simp
+      simp only [e6, if_false, List.take_left' rfl, List.drop_left' rfl]
+      simpa [upsertAll] using hih
+
+end SmsVerif
